@@ -259,6 +259,23 @@ func (i *Interp) crossCheck(c *Term, canTrue, canFalse bool) {
 	ok := (v1 == Unknown || (v1 == Sat) == canTrue) && (v0 == Unknown || (v0 == Sat) == canFalse)
 	if !ok {
 		w.crossMismatch++
+		if f := os.Getenv("GOSYM_XDEBUG"); f != "" {
+			if fh, err := os.OpenFile(f, os.O_APPEND|os.O_CREATE|os.O_WRONLY, 0644); err == nil {
+				r := i.vecEval(c, vi)
+				fmt.Fprintf(fh, "; MISMATCH canTrue=%v canFalse=%v smt(c)=%v smt(not c)=%v entangled=%v\n; vals/results:", canTrue, canFalse, v1, v0, vi.entangled)
+				for k := range vi.vals {
+					if vi.dom[k>>6]&(1<<(uint(k)&63)) != 0 {
+						fmt.Fprintf(fh, " %d:%d", vi.vals[k], r[k])
+					}
+				}
+				fmt.Fprintln(fh)
+				for _, l := range termScript(dom, c) {
+					fmt.Fprintln(fh, l)
+				}
+				fmt.Fprintf(fh, "(assert %s)\n(assert %s)\n(check-sat)\n(get-model)\n\n", dom.ref(), c.ref())
+				fh.Close()
+			}
+		}
 		panic(unsupported{"domain pass and SMT solver disagree on " + c.String()})
 	}
 }
